@@ -215,7 +215,7 @@ pub fn memory_check(args: &[String], n: usize, seed: u64, long_lines: bool) -> (
                     if long_lines && matches!(l.kind, LineKind::Context | LineKind::Minus | LineKind::Plus) {
                         // minified files, data tables, lock files: lines beyond every per-line limit
                         // (max-syntax-highlighting-length 400, max-line-length 3000 are the defaults)
-                        let pad = if produced % 7 == 0 { 3300 } else { 450 };
+                        let pad = if produced % 31 == 0 { 3300 } else { 450 };
                         let mut t = String::with_capacity(l.text.len() + pad);
                         t.push_str(&l.text);
                         while t.len() < pad {
@@ -258,7 +258,7 @@ pub fn memory_check(args: &[String], n: usize, seed: u64, long_lines: bool) -> (
     let growth = h4 - h1;
     let input_growth = (l4 - l1) as isize;
     let info = json!({"args": args, "long_lines": long_lines, "hunks_small": n, "hunks_large": 4 * n, "input_bytes_small": l1, "input_bytes_large": l4, "live_heap_small": h1, "live_heap_large": h4, "quiescence_points_large": q4});
-    if growth > input_growth / 2 {
+    if growth > input_growth / 4 {
         return (
             Some(Violation::new(
                 "M-memory",
